@@ -179,7 +179,7 @@ var DebComps = []string{"none", "gz", "xz", "bz2", "lzma", "zst"}
 //
 //	none
 //	gz | gz:1 | gz:0              deflate level 9 (default) / 1 / stored blocks only
-//	xz | xz:0 | xz:9 | xz:9e | xz:dict=64M | xz:dict=16M     preset 6 (default) / 0 / 9 (64 MiB dict) / 9|extreme / preset 6 with that dictionary
+//	xz | xz:0 | xz:9 | xz:9e | xz:dict=64M | xz:dict=16M | xz:dict=<bytes>     preset 6 (default) / 0 / 9 (64 MiB dict) / 9|extreme / preset 6 with that dictionary
 //	bz2 | bz2:1                   block size 900k (default) / 100k
 //	lzma | lzma:1 | lzma:eos | lzma:py9    kjk level 5 with size in header / level 1 / unknown size + end marker / liblzma preset 9 (64 MiB dict, end marker)
 //	zst | zst:fastest | zst:best | zst:window=64M | zst:window=1K    klauspost levels / explicit window in a multi-block frame
@@ -289,6 +289,8 @@ import sys, json, base64, lzma, bz2
 jobs = json.load(sys.stdin)
 out = []
 def size(s):
+    if s[-1].isdigit():
+        return int(s)
     return int(s[:-1]) << {"K": 10, "M": 20}[s[-1]]
 for j in jobs:
     raw = base64.b64decode(j["b64"])
@@ -363,7 +365,14 @@ func externalTool(comp string) []string {
 	case algo == "lzma":
 		return []string{"xz", "--format=lzma", "-9", "-c"}
 	case strings.HasPrefix(par, "dict="):
-		return []string{"xz", "-c", "--check=crc64", "--lzma2=preset=6,dict=" + strings.TrimSuffix(par[5:], "M") + "MiB"}
+		d := par[5:]
+		switch {
+		case strings.HasSuffix(d, "M"):
+			d = strings.TrimSuffix(d, "M") + "MiB"
+		case strings.HasSuffix(d, "K"):
+			d = strings.TrimSuffix(d, "K") + "KiB"
+		}
+		return []string{"xz", "-c", "--check=crc64", "--lzma2=preset=6,dict=" + d}
 	case par == "":
 		return []string{"xz", "-6", "-c", "--check=crc64"}
 	}
@@ -460,7 +469,7 @@ func compressInProcess(comp string, raw []byte) ([]byte, error) {
 			if err != nil {
 				return nil, fmt.Errorf("unknown zstd parameter %q", comp)
 			}
-			n <<= map[byte]uint{'K': 10, 'M': 20}[par[len(par)-1]]
+			n <<= map[byte]uint{'K': 10, 'M': 20}[par[len(par)-1]] // a plain number is taken as bytes
 			// a frame written in two flushes is not "single segment", so its header declares this window
 			opts = append(opts, zstd.WithWindowSize(n), zstd.WithSingleSegment(false))
 			split = true
